@@ -79,6 +79,20 @@ async def perform(ws, op, script):
                 return ('ok', await t)
             except asyncio.CancelledError:
                 return ('cancelled', None)
+        if k == 'recv_deliver_cancel':
+            # a receive is pending, THEN the next client event reaches the server, and the application gives up waiting
+            # j event-loop turns later (a wait_for timeout racing the arrival): whatever arrived must not be lost
+            t = asyncio.ensure_future(ws.receive_text())
+            await drain(2)
+            script.server.deliver_next()
+            for _ in range(op[1]):
+                await asyncio.sleep(0)
+            if not t.done():
+                t.cancel()
+            try:
+                return ('ok', await t)
+            except asyncio.CancelledError:
+                return ('cancelled', None)
     except falcon.WebSocketDisconnected:
         return ('exc', 'WebSocketDisconnected')
     except Exception as e:  # noqa
@@ -217,7 +231,7 @@ def run_case(case):
         if out[0] == 'ok_after_disconnect':
             raise Violation('sender_not_told', 'send_text() succeeded although the framework had already been handed the client disconnect '
                             '(the loop was drained in between); %s' % ctx())
-        if kind in ('recv', 'recv_cancel'):
+        if kind in ('recv', 'recv_cancel', 'recv_deliver_cancel'):
             if out[0] == 'ok':
                 returned += 1
             elif out[0] == 'exc':
@@ -231,7 +245,7 @@ def run_case(case):
         elif kind == 'close':
             observed_gone = True
     if len(script.outcomes) == len(ops):
-        n_recv_ok = sum(1 for op, o in zip(ops, script.outcomes) if op[0] in ('recv', 'recv_cancel') and o[0] == 'ok')
+        n_recv_ok = sum(1 for op, o in zip(ops, script.outcomes) if op[0] in ('recv', 'recv_cancel', 'recv_deliver_cancel') and o[0] == 'ok')
         n_recv = sum(1 for op, o in zip(ops, script.outcomes) if op[0] == 'recv')
         # every plain receive before the application observed the end must have been satisfied while messages remained
     early = word.find('A')
@@ -258,7 +272,7 @@ def run_case(case):
     return Info(nt, labels)
 
 
-OPS = [['recv'], ['send'], ['close'], ['recv_cancel', 3]]
+OPS = [['recv'], ['send'], ['close'], ['recv_cancel', 3], ['recv_deliver_cancel', 0], ['recv_deliver_cancel', 2]]
 
 
 def words(nd, na):
@@ -301,7 +315,8 @@ class ScheduleEnum(Suite):
 
 
 _op = st.one_of(st.just(['recv']), st.just(['recv']), st.just(['send']), st.just(['close']),
-                st.tuples(st.just('recv_cancel'), st.integers(0, 6)).map(list))
+                st.tuples(st.just('recv_cancel'), st.integers(0, 6)).map(list),
+                st.tuples(st.just('recv_deliver_cancel'), st.integers(0, 5)).map(list))
 
 
 class ScheduleRandom(Suite):
